@@ -11,7 +11,7 @@ fn cases(ob: &str) -> Vec<String> {
     let mut out: Vec<String> = vec![];
     // exponent forms without a fraction (ryu emits these), fractions, signs
     for l in ["1e21", "1E5", "5e-324", "1e0", "12e3", "-3e2", "+7E-2", "1.5e3", "0.25", "10.0", "1e22", "123456789012345678901e2",
-              "1.7976931348623157e308", "2.2250738585072014e-308", "4.9e-324", "1e-7", "9007199254740993.0", "0.1", "1e23"] {
+              "1.7976931348623157e308", "2.2250738585072014e-308", "4.9e-324", "1e-7", "9007199254740993.0", "0.1", "1e23", "0.99999999999999999999", "1.8446744073709551616", "3.14159265358979323846264338327950288", "6.0221407600000000000000e23", "0.000000000000000000000000000001"] {
         out.push(format!("dec:{}", l));
     }
     // integers around the 64-bit boundaries in all radixes
